@@ -78,7 +78,10 @@ struct C05Vis {
 					for(L i = 0; i < sn; ++i) if(!in[std::size_t(i)] && !(sbase[i] == ssnap[std::size_t(i)])) violation(K + "other-side-outside-modified", "swap modified an element outside the other view");
 				} else { count("swap_source_not_a_view_skipped"); }
 			}); break; }
-		case 6: {  // initializer lists (compile-time shapes): 1-D of size 1..4, 2-D of 2x2 / 1x3 / 2x3 / 3x1
+		case 6: {  // initializer lists (compile-time shapes): 1-D of size 1..4, 2-D of 2x2 / 1x3 / 2x3 / 3x1; and a flat list assigned to elements() (canonical order) for any rank
+			if(N >= 1 && N <= 4 && g->chance(1, 3)) { T a = srcval(0), b = srcval(1), c = srcval(2), d = srcval(3); count("elements()=initializer_list");
+				if(N == 1) { run("elements()={a}"); v.elements() = {a}; } else if(N == 2) { run("elements()={a,b}"); if(g->chance(1, 2)) { v.elements() = {a, b}; } else { auto&& els = v.elements(); els = {a, b}; } } else if(N == 3) { run("elements()={a,b,c}"); v.elements() = {a, b, c}; } else { run("elements()={a,b,c,d}"); v.elements() = {a, b, c, d}; }
+				check_image(K, m, snap, srcval); break; }
 			if constexpr(D == 1) { T a = srcval(0), b = srcval(1), c = srcval(2), d = srcval(3);
 				if(N == 1) { run("{a}"); v = {a}; } else if(N == 2) { run("{a,b}"); if(g->chance(1, 2)) v = {a, b}; else std::move(v) = {a, b}; } else if(N == 3) { run("{a,b,c}"); v = {a, b, c}; } else if(N == 4) { run("{a,b,c,d}"); v = {a, b, c, d}; } else break;
 				check_image(K, m, snap, srcval); }
